@@ -58,6 +58,7 @@ type vfMsgSpec struct {
 	ValLen   int   `json:"valLen"`
 	NHeaders int   `json:"nHeaders"`
 	HasTs    bool  `json:"hasTs"`
+	TsOff    int   `json:"tsOff,omitempty"` // supplied timestamp = base + TsOff seconds (not monotonic in submission order)
 	BadErr   bool  `json:"badErr,omitempty"` // "bad" partitioner returns an error for this message
 }
 
@@ -439,7 +440,7 @@ func (run *vfProdRun) buildMsgs() {
 		}
 		pm.Headers = vfMsgHeaders(i, m)
 		if m.HasTs {
-			pm.Timestamp = time.Unix(1500000000+int64(i), int64(i%1000)*int64(time.Millisecond))
+			pm.Timestamp = time.Unix(1500000000+int64(m.TsOff), int64(i%1000)*int64(time.Millisecond))
 		}
 		run.msgs[i] = pm
 	}
